@@ -153,6 +153,11 @@ impl Minimizer {
             c.env_before = None;
             self.try_accept(cur, c);
         }
+        if cur.heap_perturb > 0 {
+            let mut c = cur.clone();
+            c.heap_perturb = 0;
+            self.try_accept(cur, c);
+        }
         let n = Self::each_call_mut(&mut cur.clone()).len();
         for idx in 0..n {
             let (has_panic, has_session) = {
